@@ -509,3 +509,496 @@ Section ModifyFacts.
       try discriminate; try (inversion Hloc; contradiction).
   Qed.
 End ModifyFacts.
+
+(* ================================================================ AddField / AddFieldParallel *)
+Lemma flat_map_concat : forall {A B} (g : A -> list B) (l : list (list A)),
+  flat_map g (concat l) = concat (map (flat_map g) l).
+Proof.
+  intros A B g l. induction l as [|w l IH]; [reflexivity|]. cbn [map concat]. rewrite flat_map_app, IH. reflexivity.
+Qed.
+
+Lemma filter_concat : forall {A} (p : A -> bool) (l : list (list A)),
+  concat (map (filter p) l) = filter p (concat l).
+Proof.
+  intros A p l. induction l as [|w l IH]; [reflexivity|]. cbn [map concat]. rewrite filter_app, IH. reflexivity.
+Qed.
+
+Section CanvasFacts.
+  Context {K V : Type} (keqb : K -> K -> bool) (add : V -> V -> V).
+  Hypothesis keqb_spec : forall a b, keqb a b = true <-> a = b.
+
+  Lemma keqb_refl : forall a, keqb a a = true.
+  Proof. intros. apply keqb_spec. reflexivity. Qed.
+  Lemma keqb_neq : forall a b, a <> b -> keqb a b = false.
+  Proof. intros a b H. destruct (keqb a b) eqn:E; [|reflexivity]. apply keqb_spec in E. contradiction. Qed.
+
+  (* the content of one cell after an execution: only the steps on that cell's chunk matter *)
+  Definition cell_fold (c : Z) (v : V) (a : @astep K V) : V :=
+    match a with Acc _ c' x => if (c' =? c)%Z then add v x else v end.
+
+  Lemma run_canvas_cell : forall e (st : canvas) k c,
+    run_canvas keqb add e st k c
+    = fold_left (cell_fold c) (filter (fun a => keqb (step_key a) k) e) (st k c).
+  Proof.
+    induction e as [|[k0 c0 v0] e IH]; intros st k c; [reflexivity|].
+    cbn [run_canvas fold_left]. change (fold_left (acc_step keqb add) e ?s) with (run_canvas keqb add e s).
+    rewrite IH. cbn [filter step_key acc_step].
+    destruct (keqb k0 k) eqn:E; cbn [andb fold_left cell_fold]; reflexivity.
+  Qed.
+
+  Lemma job_steps_filter : forall (j : K * list (Z * V)) k,
+    filter (fun a => keqb (step_key a) k) (job_steps j) = if keqb (fst j) k then job_steps j else [].
+  Proof.
+    intros [k0 cvs] k. unfold job_steps. cbn [fst snd].
+    induction cvs as [|cv cvs IH]; cbn [map filter step_key].
+    - destruct (keqb k0 k); reflexivity.
+    - rewrite IH. destruct (keqb k0 k); reflexivity.
+  Qed.
+
+  Lemma jobs_one_busy : forall (jobs : list (K * list (Z * V))) k,
+    NoDup (map fst jobs) ->
+    at_most_one_busy (map (filter (fun a => keqb (step_key a) k)) (map job_steps jobs)).
+  Proof.
+    intros jobs k Hnd i j wi wj Hi Hj Hni Hnj.
+    rewrite map_map in Hi, Hj. rewrite nth_error_map in Hi, Hj.
+    destruct (nth_error jobs i) as [ji|] eqn:Ei; [|discriminate].
+    destruct (nth_error jobs j) as [jj|] eqn:Ej; [|discriminate].
+    cbn in Hi, Hj. rewrite job_steps_filter in Hi, Hj.
+    destruct (keqb (fst ji) k) eqn:Ki; [|inversion Hi; subst; contradiction].
+    destruct (keqb (fst jj) k) eqn:Kj; [|inversion Hj; subst; contradiction].
+    apply keqb_spec in Ki. apply keqb_spec in Kj.
+    apply (proj1 (NoDup_nth_error (map fst jobs)) Hnd).
+    - rewrite map_length. apply nth_error_Some. congruence.
+    - rewrite !nth_error_map, Ei, Ej. cbn. congruence.
+  Qed.
+
+  (* For every schedule of the per-chunk jobs (distinct (attribute, chunk) keys, as dispatched by
+     AddFieldParallel) every cell of every chunk ends with exactly the value the sequential
+     AddField computes (jobs one after the other, in dispatch order).  `add` is arbitrary. *)
+  Theorem addfield_any_schedule : forall (jobs : list (K * list (Z * V))) e st,
+    NoDup (map fst jobs) -> interleaving e (map job_steps jobs) ->
+    forall k c, run_canvas keqb add e st k c
+                = run_canvas keqb add (concat (map job_steps jobs)) st k c.
+  Proof.
+    intros jobs e st Hnd H k c. rewrite !run_canvas_cell. f_equal.
+    pose proof (interleaving_filter (fun a => keqb (step_key a) k) _ _ H) as Hf.
+    rewrite (interleaving_one_busy _ _ Hf (jobs_one_busy jobs k Hnd)).
+    apply filter_concat.
+  Qed.
+
+  (* jobs of different chunks never touch a common cell *)
+  Theorem addfield_no_model_race : forall (jobs : list (K * list (Z * V))) i j ji jj a b,
+    NoDup (map fst jobs) -> i <> j -> nth_error jobs i = Some ji -> nth_error jobs j = Some jj ->
+    In a (job_steps ji) -> In b (job_steps jj) -> step_key a <> step_key b.
+  Proof.
+    intros jobs i j ji jj a b Hnd Hne Hi Hj Ha Hb.
+    unfold job_steps in Ha, Hb. apply in_map_iff in Ha. apply in_map_iff in Hb.
+    destruct Ha as (? & <- & _). destruct Hb as (? & <- & _). cbn [step_key].
+    intros E. apply Hne. apply (proj1 (NoDup_nth_error (map fst jobs)) Hnd).
+    - rewrite map_length. apply nth_error_Some. congruence.
+    - rewrite !nth_error_map, Hi, Hj. cbn. congruence.
+  Qed.
+
+  (* ---------------- the chunk table kept under chunkMutex refines the keyed canvas *)
+  Variable zero : V.
+  Notation lookup := (lookup keqb).
+  Notation view := (view keqb zero).
+
+  Definition twf (t : @table K V) : Prop :=
+    (forall k i, lookup k (positions t) = Some i -> i < length (chunks t))
+    /\ (forall k k' i, lookup k (positions t) = Some i -> lookup k' (positions t) = Some i -> k = k').
+
+  Definition canvas_eq (a b : @canvas K V) : Prop := forall k c, a k c = b k c.
+
+  Lemma fetch_lookup_same : forall k t, exists i, lookup k (positions (fetch keqb zero k t)) = Some i.
+  Proof.
+    intros k t. unfold fetch. destruct (lookup k (positions t)) as [i|] eqn:E.
+    - exists i. exact E.
+    - cbn [positions Interleave.lookup]. rewrite keqb_refl. eexists. reflexivity.
+  Qed.
+
+  Lemma fetch_twf : forall k t, twf t -> twf (fetch keqb zero k t).
+  Proof.
+    intros k t [Hb Hi]. unfold fetch. destruct (lookup k (positions t)) as [i|] eqn:E; [split; assumption|].
+    split; cbn [positions chunks Interleave.lookup].
+    - intros k1 i1. rewrite app_length. cbn [length]. destruct (keqb k1 k).
+      + intros [= <-]. lia.
+      + intros H. apply Hb in H. lia.
+    - intros k1 k2 i1. destruct (keqb k1 k) eqn:E1; destruct (keqb k2 k) eqn:E2.
+      + apply keqb_spec in E1. apply keqb_spec in E2. congruence.
+      + intros [= <-] H. apply Hb in H. lia.
+      + intros H [= <-]. apply Hb in H. lia.
+      + apply Hi.
+  Qed.
+
+  Lemma fetch_view : forall k t, twf t -> canvas_eq (view (fetch keqb zero k t)) (view t).
+  Proof.
+    intros k t [Hb Hi] k1 c. unfold fetch. destruct (lookup k (positions t)) as [i|] eqn:E; [reflexivity|].
+    unfold Interleave.view. cbn [positions chunks Interleave.lookup].
+    destruct (keqb k1 k) eqn:E1.
+    - apply keqb_spec in E1. subst k1. rewrite E. rewrite app_nth2 by lia. rewrite Nat.sub_diag. reflexivity.
+    - destruct (lookup k1 (positions t)) as [i1|] eqn:E2; [|reflexivity].
+      rewrite app_nth1 by (eapply Hb; eassumption). reflexivity.
+  Qed.
+
+  Lemma upd_chunk_length : forall cs i c v, length (upd_chunk add cs i c v) = length cs.
+  Proof. induction cs as [|h t IH]; intros [|i] c v; cbn; auto. Qed.
+
+  Lemma upd_chunk_same : forall cs i c v dflt c', i < length cs ->
+    nth i (upd_chunk add cs i c v) dflt c'
+    = if (c =? c')%Z then add (nth i cs dflt c') v else nth i cs dflt c'.
+  Proof.
+    induction cs as [|h t IH]; intros [|i] c v dflt c' H; cbn in *; try lia; [reflexivity|].
+    apply IH. lia.
+  Qed.
+
+  Lemma upd_chunk_other : forall cs i j c v dflt, i <> j ->
+    nth j (upd_chunk add cs i c v) dflt = nth j cs dflt.
+  Proof.
+    induction cs as [|h t IH]; intros [|i] [|j] c v dflt H; cbn; try reflexivity; try lia.
+    apply IH. lia.
+  Qed.
+
+  Lemma table_step_sim : forall t a, twf t ->
+    twf (table_step keqb add zero t a)
+    /\ canvas_eq (view (table_step keqb add zero t a))
+                 (run_canvas keqb add (erase a) (view t)).
+  Proof.
+    intros t [k|k c v] Hwf; cbn [table_step erase run_canvas fold_left].
+    - split; [apply fetch_twf; assumption | apply fetch_view; assumption].
+    - pose proof (fetch_twf k t Hwf) as Hwf'. pose proof (fetch_view k t Hwf) as Hv.
+      destruct (fetch_lookup_same k t) as [i Ei]. rewrite Ei.
+      set (t' := fetch keqb zero k t) in *. destruct Hwf' as [Hb Hinj].
+      split.
+      + split; cbn [positions chunks]; [|exact Hinj].
+        intros k1 i1 H. rewrite upd_chunk_length. eapply Hb; eassumption.
+      + intros k1 c1. cbn [acc_step]. rewrite <- (Hv k1 c1).
+        unfold Interleave.view. cbn [positions chunks].
+        destruct (keqb k k1) eqn:E.
+        * apply keqb_spec in E. subst k1. rewrite Ei. cbn [andb].
+          apply upd_chunk_same. eapply Hb; eassumption.
+        * cbn [andb]. destruct (lookup k1 (positions t')) as [i1|] eqn:E1; [|reflexivity].
+          rewrite upd_chunk_other; [reflexivity|].
+          intros ->. rewrite (Hinj _ _ _ Ei E1), keqb_refl in E. discriminate.
+  Qed.
+
+  Lemma run_canvas_ext : forall e (a b : @canvas K V),
+    canvas_eq a b -> canvas_eq (run_canvas keqb add e a) (run_canvas keqb add e b).
+  Proof.
+    intros e a b H k c. rewrite !run_canvas_cell. rewrite (H k c). reflexivity.
+  Qed.
+
+  Lemma run_canvas_app : forall e1 e2 (st : @canvas K V),
+    run_canvas keqb add (e1 ++ e2) st = run_canvas keqb add e2 (run_canvas keqb add e1 st).
+  Proof. intros. unfold run_canvas. apply fold_left_app. Qed.
+
+  (* any sequence of table steps, read through the table, is the keyed canvas run on the same adds *)
+  Lemma run_table_sim : forall e t, twf t ->
+    twf (run_table keqb add zero e t)
+    /\ canvas_eq (view (run_table keqb add zero e t))
+                 (run_canvas keqb add (flat_map erase e) (view t)).
+  Proof.
+    induction e as [|a e IH]; intros t Hwf.
+    - split; [assumption|]. intros k c. reflexivity.
+    - cbn [run_table fold_left flat_map].
+      change (fold_left (table_step keqb add zero) e ?s) with (run_table keqb add zero e s).
+      destruct (table_step_sim t a Hwf) as [Hwf1 Hv1]. destruct (IH _ Hwf1) as [Hwf2 Hv2].
+      split; [assumption|]. intros k c. rewrite (Hv2 k c). rewrite run_canvas_app.
+      apply run_canvas_ext. exact Hv1.
+  Qed.
+
+  Lemma job_tsteps_erase : forall j : K * list (Z * V), flat_map erase (job_tsteps j) = job_steps j.
+  Proof.
+    intros [k cvs]. unfold job_tsteps, job_steps. cbn [fst snd flat_map erase app].
+    induction cvs as [|cv cvs IH]; [reflexivity|]. cbn [map flat_map erase app]. rewrite IH. reflexivity.
+  Qed.
+
+  (* AddFieldParallel with the real bookkeeping: chunks are allocated in whatever order the jobs
+     reach chunkIndex_atomic (so their slots in float1Data differ from run to run), yet what the
+     canvas holds for every (attribute, chunk, cell) is what the sequential AddField leaves there *)
+  Theorem addfield_table_any_schedule : forall (jobs : list (K * list (Z * V))) e t,
+    twf t -> NoDup (map fst jobs) -> interleaving e (map job_tsteps jobs) ->
+    canvas_eq (view (run_table keqb add zero e t))
+              (view (run_table keqb add zero (concat (map job_tsteps jobs)) t)).
+  Proof.
+    intros jobs e t Hwf Hnd H k c.
+    destruct (run_table_sim e t Hwf) as [_ H1].
+    destruct (run_table_sim (concat (map job_tsteps jobs)) t Hwf) as [_ H2].
+    rewrite (H1 k c), (H2 k c).
+    pose proof (interleaving_flat_map erase _ _ H) as Hi. rewrite map_map in Hi.
+    rewrite (map_ext _ _ job_tsteps_erase) in Hi.
+    rewrite (addfield_any_schedule jobs _ (view t) Hnd Hi k c).
+    f_equal. rewrite flat_map_concat, map_map. rewrite (map_ext _ _ job_tsteps_erase). reflexivity.
+  Qed.
+
+  Lemma twf_empty : twf {| positions := []; chunks := [] |}.
+  Proof. split; cbn; intros; discriminate. Qed.
+End CanvasFacts.
+
+(* ================================================================ March / MarchParallel *)
+Section MarchFacts.
+  Context {P : Type} (d : P).
+  Notation bmesh := (@bmesh P).
+
+  Lemma bappend_wf : forall m o : bmesh, bwf m -> bwf o -> bwf (bappend m o).
+  Proof.
+    intros m o Hm Ho. unfold bwf, bappend in *. cbn [verts tris]. rewrite app_length.
+    apply Forall_app. split.
+    - eapply Forall_impl; [|exact Hm]. intros [[a b] c]. lia.
+    - apply Forall_forall. intros t Ht. apply in_map_iff in Ht. destruct Ht as ([[a b] c] & <- & Hin).
+      rewrite Forall_forall in Ho. specialize (Ho _ Hin). cbn in *. lia.
+  Qed.
+
+  (* appending keeps the triangles of both meshes, as position triples *)
+  Lemma resolve_bappend : forall m o : bmesh, bwf m -> resolve d (bappend m o) = resolve d m ++ resolve d o.
+  Proof.
+    intros m o Hm. unfold resolve, bappend. cbn [verts tris]. rewrite map_app, map_map. f_equal.
+    - apply map_ext_in. intros [[a b] c] Hin. unfold bwf in Hm. rewrite Forall_forall in Hm.
+      specialize (Hm _ Hin). cbn in Hm. rewrite !app_nth1 by lia. reflexivity.
+    - apply map_ext. intros [[a b] c]. cbn [shift3].
+      rewrite !app_nth2 by lia. replace (a + length (verts m) - length (verts m)) with a by lia.
+      replace (b + length (verts m) - length (verts m)) with b by lia.
+      replace (c + length (verts m) - length (verts m)) with c by lia. reflexivity.
+  Qed.
+
+  Lemma resolve_fold : forall (l : list bmesh) (m : bmesh), bwf m -> Forall (@bwf P) l ->
+    bwf (fold_left bappend l m) /\ resolve d (fold_left bappend l m) = resolve d m ++ flat_map (resolve d) l.
+  Proof.
+    induction l as [|o l IH]; intros m Hm Hl.
+    - cbn. rewrite app_nil_r. split; [assumption|reflexivity].
+    - inversion Hl; subst. cbn [fold_left flat_map].
+      destruct (IH (bappend m o) (bappend_wf _ _ Hm H1) H2) as [Hw He].
+      split; [assumption|]. rewrite He, resolve_bappend by assumption. rewrite app_assoc. reflexivity.
+  Qed.
+
+  Lemma bempty_wf : bwf (@bempty P).
+  Proof. constructor. Qed.
+
+  (* the merged mesh consists of the triangles of the blocks, block after block *)
+  Theorem march_fold_triangles : forall blocks : list bmesh, Forall (@bwf P) blocks ->
+    resolve d (march_fold blocks) = flat_map (resolve d) blocks.
+  Proof.
+    intros blocks H. unfold march_fold. destruct (resolve_fold blocks bempty bempty_wf H) as [_ E].
+    rewrite E. reflexivity.
+  Qed.
+
+  (* whatever order the block meshes arrive in on the result channel (and whatever order the map
+     iteration of the sequential variant produces), the merged mesh has the same triangle multiset *)
+  Theorem march_parallel_multiset : forall blocks arrival : list bmesh,
+    Forall (@bwf P) blocks -> Permutation arrival blocks ->
+    Permutation (resolve d (march_fold arrival)) (resolve d (march_fold blocks)).
+  Proof.
+    intros blocks arrival Hw Hp.
+    assert (Hw' : Forall (@bwf P) arrival).
+    { apply Forall_forall. intros m Hm. rewrite Forall_forall in Hw. apply Hw.
+      eapply Permutation_in; eassumption. }
+    rewrite !march_fold_triangles by assumption. apply Permutation_flat_map. exact Hp.
+  Qed.
+
+  (* the arrival order of an execution in which every block job is one `results <- mesh` step *)
+  Corollary march_any_schedule : forall (blocks e : list bmesh),
+    Forall (@bwf P) blocks -> interleaving e (map (fun m => [m]) blocks) ->
+    Permutation (resolve d (march_fold e)) (resolve d (march_fold blocks)).
+  Proof.
+    intros blocks e Hw H. apply march_parallel_multiset; [assumption|].
+    apply interleaving_perm in H. rewrite <- flat_map_concat_map in H.
+    replace (flat_map (fun m => [m]) blocks) with blocks in H; [exact H|].
+    clear. induction blocks as [|m l IH]; [reflexivity|]. cbn. rewrite <- IH. reflexivity.
+  Qed.
+End MarchFacts.
+
+(* ================================================================ chunk arithmetic of the canvas *)
+Lemma nodup_app : forall {A} (l1 l2 : list A),
+  NoDup l1 -> NoDup l2 -> (forall x, In x l1 -> In x l2 -> False) -> NoDup (l1 ++ l2).
+Proof.
+  intros A l1 l2 H1 H2 Hd. induction H1 as [|a l1 Hn _ IH]; [exact H2|].
+  cbn [app]. constructor.
+  - intros Hin. apply in_app_or in Hin. destruct Hin as [Hin|Hin]; [contradiction|].
+    apply (Hd a); [left; reflexivity|exact Hin].
+  - apply IH. intros x Hx. apply Hd. right. exact Hx.
+Qed.
+
+Section ChunkFacts.
+  Open Scope Z_scope.
+  Ltac Zify.zify_post_hook ::= Z.div_mod_to_equations.
+
+  Lemma in_zspan : forall a b x, In x (zspan a b) <-> a <= x < b.
+  Proof.
+    intros a b x. unfold zspan. rewrite in_map_iff. split.
+    - intros (k & <- & Hk). apply in_seq in Hk. lia.
+    - intros H. exists (Z.to_nat (x - a)). split; [lia|]. apply in_seq. lia.
+  Qed.
+
+  Lemma in_zrange : forall lo n x, In x (zrange lo n) <-> lo <= x < lo + Z.of_nat n.
+  Proof.
+    intros lo n x. unfold zrange. rewrite in_map_iff. split.
+    - intros (k & <- & Hk). apply in_seq in Hk. lia.
+    - intros H. exists (Z.to_nat (x - lo)). split; [lia|]. apply in_seq. lia.
+  Qed.
+
+  Lemma zrange_nodup : forall lo n, NoDup (zrange lo n).
+  Proof.
+    intros lo n. unfold zrange. apply FinFun.Injective_map_NoDup; [|apply seq_NoDup].
+    intros a b H. lia.
+  Qed.
+
+  (* one axis: a coordinate of the field's box is written by the job of its own chunk only *)
+  Lemma axis_cells_spec : forall c lo hi x,
+    In x (axis_cells c lo hi) <-> (lo <= x < hi /\ chunk_of x = c).
+  Proof.
+    intros c lo hi x. unfold axis_cells, axis_lo, axis_hi, chunk_of, section_size.
+    rewrite in_zspan. split; intros H; lia.
+  Qed.
+
+  Lemma chunk_of_mono : forall a b, a <= b -> chunk_of a <= chunk_of b.
+  Proof. intros. unfold chunk_of, section_size. lia. Qed.
+
+  Definition in_box (p mn mx : vec) : Prop :=
+    let '(x, y, z) := p in let '(x0, y0, z0) := mn in let '(x1, y1, z1) := mx in
+    x0 <= x < x1 /\ y0 <= y < y1 /\ z0 <= z < z1.
+
+  (* addFloat1Range of chunk c writes exactly the positions of the box that lie in chunk c *)
+  Theorem job_positions_spec : forall c mn mx p,
+    In p (job_positions c mn mx) <-> (in_box p mn mx /\ chunk_pos p = c).
+  Proof.
+    intros [[cx cy] cz] [[x0 y0] z0] [[x1 y1] z1] [[x y] z]. unfold job_positions, in_box, chunk_pos.
+    rewrite in_flat_map. split.
+    - intros (z' & Hz & H). apply in_flat_map in H. destruct H as (y' & Hy & H).
+      apply in_map_iff in H. destruct H as (x' & E & Hx). inversion E; subst.
+      apply axis_cells_spec in Hx, Hy, Hz. intuition congruence.
+    - intros ((Hx & Hy & Hz) & E). inversion E; subst. exists z. split; [apply axis_cells_spec; tauto|].
+      apply in_flat_map. exists y. split; [apply axis_cells_spec; tauto|].
+      apply in_map_iff. exists x. split; [reflexivity|apply axis_cells_spec; tauto].
+  Qed.
+
+  Lemma vec_eqb_spec : forall a b, vec_eqb a b = true <-> a = b.
+  Proof.
+    intros [[ax ay] az] [[bx by_] bz]. unfold vec_eqb. rewrite !andb_true_iff, !Z.eqb_eq.
+    split; [intros [[-> ->] ->]; reflexivity | intros [= -> -> ->]; auto].
+  Qed.
+
+  Lemma in_chunk_sections : forall mn mx c,
+    (let '(x0, y0, z0) := chunk_pos mn in let '(x1, y1, z1) := chunk_pos mx in
+     x0 <= x1 /\ y0 <= y1 /\ z0 <= z1) ->
+    (In c (chunk_sections mn mx) <->
+     let '(cx, cy, cz) := c in let '(x0, y0, z0) := chunk_pos mn in let '(x1, y1, z1) := chunk_pos mx in
+     (x0 <= cx <= x1 /\ y0 <= cy <= y1 /\ z0 <= cz <= z1)).
+  Proof.
+    intros mn mx [[cx cy] cz]. unfold chunk_sections.
+    destruct (chunk_pos mn) as [[x0 y0] z0]. destruct (chunk_pos mx) as [[x1 y1] z1].
+    intros (Lx & Ly & Lz).
+    destruct (vec_eqb (x0, y0, z0) (x1, y1, z1)) eqn:E.
+    - apply vec_eqb_spec in E. inversion E; subst. cbn [In]. split.
+      + intros [H|[]]. inversion H; subst. lia.
+      + intros H. left. f_equal; [f_equal|]; lia.
+    - rewrite in_flat_map. split.
+      + intros (x & Hx & H). apply in_flat_map in H. destruct H as (y & Hy & H).
+        apply in_map_iff in H. destruct H as (z & Ez & Hz). inversion Ez; subst.
+        apply in_zrange in Hx, Hy, Hz. lia.
+      + intros (Hx & Hy & Hz). exists cx. split; [apply in_zrange; lia|].
+        apply in_flat_map. exists cy. split; [apply in_zrange; lia|].
+        apply in_map_iff. exists cz. split; [reflexivity|apply in_zrange; lia].
+  Qed.
+
+  (* every position of a non-empty box belongs to a chunk that gets a job *)
+  Theorem chunk_sections_complete : forall mn mx p,
+    in_box p mn mx -> In (chunk_pos p) (chunk_sections mn mx).
+  Proof.
+    intros [[x0 y0] z0] [[x1 y1] z1] [[x y] z] (Hx & Hy & Hz).
+    pose proof (chunk_of_mono x0 x ltac:(lia)). pose proof (chunk_of_mono x x1 ltac:(lia)).
+    pose proof (chunk_of_mono y0 y ltac:(lia)). pose proof (chunk_of_mono y y1 ltac:(lia)).
+    pose proof (chunk_of_mono z0 z ltac:(lia)). pose proof (chunk_of_mono z z1 ltac:(lia)).
+    apply in_chunk_sections; cbn [chunk_pos]; lia.
+  Qed.
+
+  (* no chunk gets two jobs for the same attribute *)
+  Theorem chunk_sections_nodup : forall mn mx, NoDup (chunk_sections mn mx).
+  Proof.
+    intros mn mx. unfold chunk_sections.
+    destruct (chunk_pos mn) as [[x0 y0] z0]. destruct (chunk_pos mx) as [[x1 y1] z1].
+    destruct (vec_eqb (x0, y0, z0) (x1, y1, z1)); [constructor; [intros []|constructor]|].
+    generalize (zrange_nodup x0 (Z.to_nat (x1 - x0 + 1))).
+    generalize (zrange x0 (Z.to_nat (x1 - x0 + 1))) as xs.
+    pose proof (zrange_nodup y0 (Z.to_nat (y1 - y0 + 1))) as Hys. revert Hys.
+    generalize (zrange y0 (Z.to_nat (y1 - y0 + 1))) as ys.
+    pose proof (zrange_nodup z0 (Z.to_nat (z1 - z0 + 1))) as Hzs. revert Hzs.
+    generalize (zrange z0 (Z.to_nat (z1 - z0 + 1))) as zs.
+    intros zs Hzs ys Hys xs Hxs.
+    assert (Hyz : forall x : Z, NoDup (flat_map (fun y => map (fun z => (x, y, z)) zs) ys)).
+    { intros x. clear Hxs. induction Hys as [|y ys Hn _ IH]; [constructor|].
+      cbn [flat_map]. apply nodup_app; [| exact IH |].
+      - apply FinFun.Injective_map_NoDup; [|exact Hzs]. intros a b [= ->]. reflexivity.
+      - intros p Hp Hq. apply in_map_iff in Hp. destruct Hp as (z & <- & _).
+        apply in_flat_map in Hq. destruct Hq as (y' & Hy' & Hq). apply in_map_iff in Hq.
+        destruct Hq as (z' & [= -> ->] & _). contradiction. }
+    induction Hxs as [|x xs Hn _ IH]; [constructor|].
+    cbn [flat_map]. apply nodup_app; [apply Hyz | exact IH |].
+    intros p Hp Hq. apply in_flat_map in Hp. destruct Hp as (y & _ & Hp). apply in_map_iff in Hp.
+    destruct Hp as (z & <- & _). apply in_flat_map in Hq. destruct Hq as (x' & Hx' & Hq).
+    apply in_flat_map in Hq. destruct Hq as (y' & _ & Hq). apply in_map_iff in Hq.
+    destruct Hq as (z' & [= -> -> ->] & _). contradiction.
+  Qed.
+
+  (* inside its chunk a position has a cell index in [0, 100^3), and different positions of the
+     same chunk have different cells: a job never adds twice into one cell *)
+  Theorem cell_index_range : forall p, 0 <= cell_index (chunk_pos p) p < 1000000.
+  Proof.
+    intros [[x y] z]. unfold cell_index, chunk_pos, chunk_of, section_size. lia.
+  Qed.
+
+  Theorem cell_index_inj : forall c p q,
+    chunk_pos p = c -> chunk_pos q = c -> cell_index c p = cell_index c q -> p = q.
+  Proof.
+    intros [[cx cy] cz] [[x y] z] [[x' y'] z']. unfold cell_index, chunk_pos, chunk_of, section_size.
+    intros [= <- <- <-] [= E1 E2 E3] H.
+    assert (x = x' /\ y = y' /\ z = z') as (-> & -> & ->) by lia. reflexivity.
+  Qed.
+End ChunkFacts.
+
+(* ================================================================ round robin is an execution too *)
+Section RoundRobin.
+  Context {A : Type}.
+
+  Lemma heads_round : forall (ws pre : list (list A)) e,
+    interleaving e (pre ++ tails ws) -> interleaving (heads ws ++ e) (pre ++ ws).
+  Proof.
+    induction ws as [|w ws IH]; intros pre e H; [exact H|].
+    destruct w as [|x t]; cbn [tails map tl heads flat_map app] in *.
+    - replace (pre ++ [] :: ws) with ((pre ++ [[]]) ++ ws) by (rewrite <- app_assoc; reflexivity).
+      apply IH. rewrite <- app_assoc. exact H.
+    - constructor.
+      replace (pre ++ t :: ws) with ((pre ++ [t]) ++ ws) by (rewrite <- app_assoc; reflexivity).
+      apply IH. rewrite <- app_assoc. exact H.
+  Qed.
+
+  Lemma longest_zero : forall ws : list (list A), longest ws = 0 -> Forall (fun w => w = []) ws.
+  Proof.
+    induction ws as [|w ws IH]; intros H; [constructor|].
+    change (longest (w :: ws)) with (Nat.max (length w) (longest ws)) in H. constructor.
+    - destruct w; [reflexivity|]. cbn [length] in H.
+      destruct (Nat.max_spec (S (length w)) (longest ws)) as [[? E]|[? E]]; rewrite E in H; lia.
+    - apply IH. destruct (Nat.max_spec (length w) (longest ws)) as [[? E]|[? E]]; rewrite E in H; lia.
+  Qed.
+
+  Lemma longest_tails : forall ws : list (list A), longest (tails ws) = longest ws - 1.
+  Proof.
+    induction ws as [|w ws IH]; [reflexivity|].
+    change (longest (tails (w :: ws))) with (Nat.max (length (tl w)) (longest (tails ws))).
+    change (longest (w :: ws)) with (Nat.max (length w) (longest ws)). rewrite IH.
+    destruct w as [|x t]; cbn [tl length].
+    - rewrite !Nat.max_0_l. reflexivity.
+    - destruct (Nat.max_spec (length t) (longest ws - 1)) as [[? ->]|[? ->]];
+        destruct (Nat.max_spec (S (length t)) (longest ws)) as [[? ->]|[? ->]]; lia.
+  Qed.
+
+  Lemma sched_rr_interleaving : forall fuel (ws : list (list A)),
+    longest ws <= fuel -> interleaving (sched_rr fuel ws) ws.
+  Proof.
+    induction fuel as [|k IH]; intros ws H.
+    - cbn. constructor. apply longest_zero. lia.
+    - cbn [sched_rr]. apply (heads_round ws []). cbn [app]. apply IH. rewrite longest_tails. lia.
+  Qed.
+
+  Lemma sched_round_robin_interleaving : forall ws : list (list A), interleaving (sched_round_robin ws) ws.
+  Proof. intros. apply sched_rr_interleaving. constructor. Qed.
+End RoundRobin.
